@@ -26,6 +26,7 @@ Notation dop := (dop S).
 
 Inductive probe : Type :=
 | PF0 | PZ0
+| PF0Z0                      (* a probe returning SEVERAL quantities at once: Probe('(F0, Z0)'), Probe(lambda sm: (sm.F0, sm.Z0)) *)
 | PJac (vars : list var)
 | PHess (vars : list var).
 
@@ -159,6 +160,7 @@ Definition acquire (p : probe) (d : dstate) : list S :=
   match p with
   | PF0 => [f0 S (d_main d)]
   | PZ0 => [z0 (d_main d)]
+  | PF0Z0 => [f0 S (d_main d); z0 (d_main d)]
   | PJac vars => jacobian d vars
   | PHess vars => concat (hessian d vars)
   end.
